@@ -10,6 +10,8 @@ import numpy as np
 import torch
 
 from pfhedge.features import ModuleOutput
+from pfhedge.instruments import BaseDerivative
+from pfhedge.instruments import OptionMixin
 from pfhedge.features import get_feature
 from pfhedge.nn import Hedger
 
@@ -34,19 +36,37 @@ ANCHORS = ['pfhedge.nn.modules.hedger:Hedger.compute_hedge',
            'pfhedge.features.features:PrevHedge.get',
            'pfhedge.features.container:FeatureList.get',
            'pfhedge.features.features:Barrier.get']
-DECIDING = ["feature.step_equals_column", "branches.agree", "prev_hedge.is_last_output", "prev_hedge.zero_at_step0"]
-REQUIRED_BRANCHES = ["underlier_on_another_grid", "H>1", "second_call_same_shape", "second_call_other_paths", "barrier.down.nonmonotone"]
+DECIDING = ["model_input.declared_order", "feature.step_equals_column", "branches.agree", "prev_hedge.is_last_output", "prev_hedge.zero_at_step0"]
+REQUIRED_BRANCHES = ["prev_hedge.first", "prev_hedge.middle", "option_with_two_underliers", "underlier_on_another_grid", "H>1", "second_call_same_shape", "second_call_other_paths", "barrier.down.nonmonotone"]
+
+
+class TwoUnderlierOption(BaseDerivative, OptionMixin):
+    """A user option whose `underlier` is not the first registered underlier (ul() and .underlier differ)."""
+
+    def __init__(self, other, underlier, strike=1.0, maturity=0.1):
+        super().__init__()
+        self.register_underlier("other", other)
+        self.register_underlier("underlier", underlier)
+        self.call, self.strike, self.maturity = True, strike, maturity
+
+    def payoff_fn(self):
+        return torch.relu(self.underlier.spot[..., -1] - self.strike)
 
 
 def drv_features(ctx, k, rng):
     dtype = pick(rng, [None, F64])
     stock = P.make_stock(rng, dtype=dtype, dt=float(pick(rng, [1 / 12, 1 / 52, 0.1])))
     derivative = P.make_derivative(rng, stock, n_steps=int(pick(rng, [1, 2, 4, 7])), clauses=False)
+    if rng.random() < 0.15:
+        other = P.make_stock(rng, "brownian", dtype=dtype, dt=stock.dt)
+        derivative = TwoUnderlierOption(other, stock, strike=float(pick(rng, [1.0, 0.9])), maturity=int(pick(rng, [2, 4, 7])) * stock.dt)
+        derivative._pfv_kind = "two_underlier_option"
+        ctx.branch("option_with_two_underliers")
     if derivative._pfv_kind == "european" and rng.random() < 0.5:
         derivative.list(P.bs_pricer, cost=1e-3)
     n = int(pick(rng, [1, 4]))
     derivative.simulate(n_paths=n)
-    if rng.random() < 0.3:
+    if rng.random() < 0.3 and derivative._pfv_kind != "two_underlier_option":
         # the underlier is shared (e.g. with a listed hedge of another maturity) or simulated directly: its series need not have the
         # derivative's own number of steps
         stock.simulate(n_paths=n, time_horizon=int(pick(rng, [1, 3, 6, 9])) * stock.dt)
@@ -139,6 +159,50 @@ def drv_branches(ctx, k, rng):
         ctx.sample({"driver": "branches", **desc, "hedge_vectorised_row0": a[0, 0, :5], "hedge_stepwise_row0": b[0, 0, :5]})
 
 
+def drv_order(ctx, k, rng):
+    """The model sees the features in the declared order - with prev_hedge anywhere in the list - and prev_hedge is the last output."""
+    from pfhedge.features import get_feature
+
+    dtype = pick(rng, [None, F64])
+    stock = P.make_stock(rng, pick(rng, ["brownian", "heston", "merton"]), dtype=dtype, dt=1 / 250)
+    derivative = P.make_derivative(rng, stock, pick(rng, P.OPTIONS), n_steps=int(pick(rng, [2, 3, 6])), clauses=False)
+    hedge, hk = P.make_hedge(rng, derivative, pick(rng, ["ul", "ul+eu", "none"]))
+    n_h = 1 if hedge is None else len(hedge)
+    names = [pick(rng, ["log_moneyness", "moneyness", "time_to_maturity", "volatility", "max_moneyness", "underlier_spot"]) for _ in range(int(rng.integers(1, 4)))]
+    pos = int(rng.integers(0, len(names) + 1))
+    names.insert(pos, "prev_hedge")
+    ctx.branch("prev_hedge.first" if pos == 0 else ("prev_hedge.last" if pos == len(names) - 1 else "prev_hedge.middle"))
+    n_in = len(names) - 1 + n_h
+    model = torch.nn.Linear(n_in, n_h)
+    hedger = Hedger(model, list(names))
+    if dtype is not None:
+        hedger.to(dtype)
+    n = int(pick(rng, [1, 3]))
+    derivative.simulate(n_paths=n)
+    ins, outs = [], []
+    h1 = model.register_forward_pre_hook(lambda m, inp: ins.append(inp[0].detach().clone()))
+    h2 = model.register_forward_hook(lambda m, inp, out: outs.append(out.detach().clone()))
+    try:
+        with torch.no_grad():
+            hedger.compute_hedge(derivative, hedge)
+    finally:
+        h1.remove()
+        h2.remove()
+    T = stock.spot.shape[1]
+    mon = "model_input.declared_order"
+    feats = [get_feature(nm).of(derivative) if nm != "prev_hedge" else None for nm in names]
+    for i in range(T - 1):
+        ctx.seen(mon)
+        with torch.no_grad():
+            cols = [(outs[i - 1] if i > 0 else torch.zeros(n, 1, n_h, dtype=stock.spot.dtype)) if f is None else f.get(i) for f in feats]
+        want = torch.cat(cols, dim=-1)
+        if i >= len(ins) or ins[i].shape != want.shape or not bit_equal(ins[i], want):
+            ctx.violation(mon, "input_order", f"step {i}: the tensor handed to the model is not the declared features {names} in order (prev_hedge = previous output)",
+                          sig=(tuple(names), n_h), names=names, step=i, got=ins[i].reshape(-1)[:8] if i < len(ins) else None, want=want.reshape(-1)[:8])
+            return
+        ctx.ok(mon, sig=(pos == 0, pos == len(names) - 1, n_h, len(names)))
+
+
 def drv_taps(ctx, k, rng):
     model_kind = pick(rng, ["mlp_prev", "recurrent", "ww", "mlp_prev"])
     hk = "ul" if model_kind == "ww" else pick(rng, ["ul", "ul+eu", "eu+eu", "ul+eu"])
@@ -204,4 +268,5 @@ DRIVERS = [
     ("features", 60, 3000, drv_features),
     ("branches", 80, 4000, drv_branches),
     ("taps", 80, 4000, drv_taps),
+    ("order", 60, 3000, drv_order),
 ]
